@@ -63,6 +63,11 @@ def norm_row(terms, lo, hi):
         if terms[first] < 0:
             terms = {v: -c for v, c in terms.items()}
             lo, hi = (None if hi is None else -hi), (None if lo is None else -lo)
+    else:
+        # a row without variables says `lo <= 0 <= hi`: only its truth value matters (how the implementation happened to
+        # orient an all-zero row -- e.g. a constraint whose edges all have length 0 -- is not part of the model)
+        true_row = (lo is None or lo <= 0) and (hi is None or hi >= 0)
+        return ((), None, None) if true_row else ((), F(1), F(0))
     return (tuple(sorted(terms.items())), lo, hi)
 
 
